@@ -119,7 +119,20 @@ def execute(mat, ctx):
         texts = [amat["vector"]["seq"]] + [m["seq"] for m in amat["modules"]]
         # the topology annotation in any spelling the library accepts, or none (decided by the text, so that replays agree)
         topo = lambda t: [None, "circular", "Circular", None, "CIRCULAR"][(len(t) + ord(t[0]) + ord(t[-1])) % 5]
-        rec = lambda t, i: CircularRecord(Seq(t), "r%d" % i, annotations={"topology": topo(t)} if topo(t) else None)
+        def rec(t, i):
+            # per-letter tracks (same name, any container type) and one feature with fuzzy positions, both decided by the text
+            spec = {"id": "r%d" % i, "seq": t, "features": []}
+            if topo(t):
+                spec["annotations"] = {"topology": topo(t)}
+            lt = gen.letter_track_variety(len(t), "c19", t[:30], len(t))
+            if lt:
+                spec["letters"] = lt
+            h = (len(t) * 7 + ord(t[len(t) // 2])) % 5
+            if h < 2 and len(t) > 12:
+                a = (len(t) * 3 + ord(t[1])) % (len(t) - 6)
+                spec["features"].append({"type": "misc_feature", "parts": [[a, a + 4, [1, -1][h]]], "fuzzy": [["w", "o"] if h else ["t", "a"]],
+                                         "quals": {"note": ["uncertain ends"]}})
+            return gen.make_record(spec)
         del _alive[:]
         classes = [M] * (len(texts) - 1)
         if mat["i"] % 2:
